@@ -30,6 +30,9 @@ type CaseC17 struct {
 	// moved by Twin/4 of that width is converted in the same call (before the main one if TwinFirst)
 	Twin      int64 `json:",omitempty"`
 	TwinFirst bool  `json:",omitempty"`
+	// Wide: sweep only, forward: the voxel 10/500/300/V/F is converted at horizontal zoom 10+Wide (4^Wide quadkeys per
+	// vertical cell), alone, twice, and together with a descendant
+	Wide int64 `json:",omitempty"`
 }
 
 func genRange(t *rapid.T) (float64, float64) {
@@ -299,7 +302,66 @@ func checkRun(fl *Fails, kind, desc string, got []int64, lo, hi cellRange) {
 	}
 }
 
+// c17Wide: one voxel that expands to 4^Wide quadkeys x several vertical cells (tens of thousands of pairs and more)
+// in the height-range form: repeating it or adding one of its descendants must neither repeat a pair nor change the set.
+func c17Wide(c *CaseC17, fl *Fails) {
+	mn, mx := c.Min.V(), c.Max.V()
+	if c.Wide > 9 || c17Run(c) > 64 {
+		return
+	}
+	a := ref.Box{H: 10, X: 500, Y: 300, V: c.V, F: c.F}
+	kid := ref.Box{H: 11, X: 1001, Y: 600, V: c.V + 1, F: c.F * 2}
+	conv := func(ids []string) (map[[2]int64]int, error) {
+		gs, err := transform.ConvertExtendedSpatialIDsToQuadkeysAndVerticalIDs(ids, 10+c.Wide, c.Z, mx, mn)
+		if err != nil {
+			return nil, err
+		}
+		out := map[[2]int64]int{}
+		for _, g := range gs {
+			for _, p := range g.InnerIDList() {
+				out[p]++
+			}
+		}
+		return out, nil
+	}
+	desc := jsonStr(c)
+	single, err := conv([]string{a.Ext()})
+	if err != nil {
+		fl.Add("forward-error", "%s: %v", desc, err)
+		return
+	}
+	Count("c17_wide_pairs", int64(len(single)))
+	for _, ids := range [][]string{{a.Ext()}, {a.Ext(), a.Ext()}, {a.Ext(), kid.Ext()}, {kid.Ext(), a.Ext(), kid.Ext()}} {
+		got, err := conv(ids)
+		if err != nil {
+			fl.Add("forward-error", "%s: list %v: %v", desc, ids, err)
+			return
+		}
+		twice, missing := 0, 0
+		for p, n := range got {
+			if n > 1 {
+				twice++
+			}
+			if _, ok := single[p]; !ok {
+				missing++
+			}
+		}
+		if twice > 0 {
+			fl.Add("forward-pair-twice", "%s: converting %v at horizontal zoom %d: %d of %d pairs are reported more than once", desc, ids, 10+c.Wide, twice, len(got))
+			return
+		}
+		if missing > 0 || len(got) != len(single) {
+			fl.Add("forward-list-union", "%s: converting %v at horizontal zoom %d gives %d pairs (%d not among those of the voxel alone), the voxel alone gives %d", desc, ids, 10+c.Wide, len(got), missing, len(single))
+			return
+		}
+	}
+}
+
 func checkC17(c *CaseC17, fl *Fails) {
+	if c.Forward && c.Wide > 0 {
+		c17Wide(c, fl)
+		return
+	}
 	mn, mx := c.Min.V(), c.Max.V()
 	if c17Run(c) > 10000 {
 		return // unbounded by construction only in hand-written replay files
@@ -526,6 +588,16 @@ func checkC17(c *CaseC17, fl *Fails) {
 }
 
 func sweepC17(tier string, emit func(*CaseC17)) {
+	// one voxel expanding to 4^6 .. 4^8 (thorough 4^9) quadkeys in the height-range form, repeated / with a descendant
+	for _, w := range []int64{6, 8, 9} {
+		if tier == "quick" && w != 8 {
+			continue
+		}
+		emit(&CaseC17{Forward: true, V: 20, F: 1, Z: 7, Min: -256, Max: 256, Wide: w})
+		if tier != "quick" {
+			emit(&CaseC17{Forward: true, V: 19, F: -2, Z: 6, Min: -256, Max: 256, Wide: w})
+		}
+	}
 	ranges := [][2]float64{{-256, 256}, {0, 1024}, {-1, 1}, {-8, 24}, {0, 1}}
 	for _, r := range ranges {
 		for Z := int64(0); Z <= 4; Z++ {
